@@ -126,6 +126,13 @@ def main():
     with cf.ThreadPoolExecutor(args.jobs) as ex:
         for name, res in ex.map(lambda m: one(m, args), muts):
             results[name] = res
+            # written after every result, merged with what another run may have recorded meanwhile
+            try:
+                latest_ = json.loads(resfile.read_text()) if resfile.exists() else {}
+            except Exception:  # noqa: BLE001
+                latest_ = {}
+            latest_[name] = res
+            resfile.write_text(json.dumps(latest_, indent=1, sort_keys=True) + "\n")
             if "error" in res:
                 print(f"{name:45s} ERROR {res['error']}")
                 continue
